@@ -1,7 +1,10 @@
 (* Extraction of the C16 model: ExtrOcamlBasic only, no Extract Constant.  The arithmetic record
    `ops` (C08Model) and the constants -DBL_MAX, 1e-14, 1e-6 are supplied by the OCaml driver from OCaml's
-   float operations. *)
+   float operations.  C16State: the state model of QpMcBoxDecomp / QpMcSimplexDecomp (gradient, variable and
+   example tables, shrinking).  C16Linear: one coordinate step of the linear solvers QpMcLinear* / one epoch of QpBoxLinear. *)
 Require Import ExtrOcamlBasic.
-From SharkV Require Import C08Model C16Model.
+From SharkV Require Import C08Model C16Model C16State C16Linear.
 Extraction "c16_model.ml" solve_edge solve_2d solve_tri max_gain_2d max_gain_line sa_lookup sa_scan
-  simplex_step box_step.
+  simplex_step box_step
+  box_smo simplex_smo unshrink box_shrink simplex_shrink add_delta_linear init_state deact_var deact_ex sdeact_var mstep
+  lin_step boxlin_epoch.
